@@ -1,6 +1,7 @@
 package main
 
 import (
+	"sync/atomic"
 	"math/rand/v2"
 	"net/http"
 	"net/http/httptest"
@@ -39,7 +40,13 @@ type c14Ev struct {
 	// Re != nil: not a request but a run-time re-configuration: the rate set Src is limited by (Src < 0: the limiter's
 	// shared default set) is changed in place to these rates
 	Re []rateSpec `json:"reconfigure,omitempty"`
+	// Fault: the rate extractor misbehaves for this one request (returns no rate set at all): the request dies inside the
+	// limiter (net/http would recover the panic per connection); nobody else's decisions may change
+	Fault bool `json:"extractor_fault,omitempty"`
 }
+
+// c14Hung is set when a request did not return from the limiter within the watchdog (everything is blocked).
+var c14Hung atomic.Bool
 
 type c14Dec struct {
 	Admitted bool
@@ -75,6 +82,9 @@ func c14RunRateMode(rs []rateSpec, capacity int, start time.Time, evs []c14Ev, o
 	sets := map[string]*ratelimit.RateSet{}
 	if perSrcSets {
 		opts = append(opts, ratelimit.ExtractRates(ratelimit.RateExtractorFunc(func(req *http.Request) (*ratelimit.RateSet, error) {
+			if req.Header.Get("X-Fault") != "" {
+				return nil, nil
+			}
 			k := req.Header.Get("X-Src")
 			if sets[k] == nil {
 				sets[k] = mkRateSet(rs)
@@ -88,6 +98,7 @@ func c14RunRateMode(rs []rateSpec, capacity int, start time.Time, evs []c14Ev, o
 	}
 	out := map[int][]c14Dec{}
 	var cur time.Duration
+	faulted := false
 	for _, e := range evs {
 		if only >= 0 && e.Src != only && !(e.Re != nil && e.Src < 0) {
 			continue
@@ -109,6 +120,30 @@ func c14RunRateMode(rs []rateSpec, capacity int, start time.Time, evs []c14Ev, o
 				if err := set.Add(x.Period, x.Average, x.Burst); err != nil {
 					panic(err)
 				}
+			}
+			continue
+		}
+		if e.Fault {
+			faulted = true
+			func() {
+				defer func() { _ = recover() }()
+				req := httptest.NewRequest("GET", "http://x.test/", nil)
+				req.Header.Set("X-Src", sfmt("s%d", e.Src))
+				req.Header.Set("X-Fault", "1")
+				tl.ServeHTTP(httptest.NewRecorder(), req)
+			}()
+			continue
+		}
+		if faulted {
+			// after a faulted request every further one runs under a watchdog
+			ch := make(chan c14Dec, 1)
+			go func() { ch <- c14Serve(tl, n, e.Src, e.Amt) }()
+			select {
+			case d := <-ch:
+				out[e.Src] = append(out[e.Src], d)
+			case <-time.After(20 * time.Second):
+				c14Hung.Store(true)
+				return out
 			}
 			continue
 		}
@@ -192,8 +227,22 @@ func c14Rate(c *Ctx) {
 			}
 			evs = out
 		}
+		if perSrc && r.IntN(2) == 0 {
+			// one source's extractor call faults once or twice somewhere in the history
+			for k := 1 + r.IntN(2); k > 0; k-- {
+				at := r.IntN(len(evs))
+				f := c14Ev{T: evs[at].T, Src: r.IntN(nsrc), Fault: true}
+				evs = append(evs[:at:at], append([]c14Ev{f}, evs[at:]...)...)
+			}
+			c.Count("extractor_faults_injected", 1)
+		}
 		merged := c14RunRateMode(rs, capacity, start, evs, -1, perSrc)
 		c.Eval()
+		if c14Hung.Load() {
+			c.Violation("rate/hang-after-fault", sfmt("rates %v, %d sources: after one request died inside the limiter (its rate extractor returned no rate set) a later request of another source did not return within 20s: the limiter is blocked for everybody", rs, nsrc), map[string]any{"rates": rs, "sources": nsrc})
+			c14Hung.Store(false)
+			return
+		}
 		both := 0
 		for s := 0; s < nsrc; s++ {
 			solo := c14RunRateMode(rs, capacity, start, evs, s, perSrc)[s]
